@@ -21,6 +21,7 @@ int alloc_aln_mem(struct aln_mem** mem, int x)
         m->prof2 = NULL;
         m->sip = 0;
         m->mode = ALN_MODE_FULL;
+        m->run_parallel = 0;
 
         m->score = 0.0F;
         m->ap = NULL;
